@@ -2932,8 +2932,7 @@ Section Parse.
           by (apply (ascending_lt_all (map fst (m' :: ms)) g); exact Ha).
         inversion HL; auto.
       + clear - Hf. cbn [map lines_toks app] in *. unfold mark_toks in *. fuel_tac.
-      + exists ts'. split; auto. cbn [map lines_toks app] in E. Show. rewrite E.
-        cbn [map fst snd]. rewrite <- !app_assoc. reflexivity.
+      + exists ts'. split; auto. rewrite <- !app_assoc in E. exact E.
   Qed.
 
   Lemma gpos4_anchors_ok : forall an i0 l rest, Forall (fun a => anchor_ok a = true) an ->
@@ -2998,8 +2997,7 @@ Section Parse.
           by (apply (ascending_lt_all (map fst (b' :: bs)) g); exact Ha).
         inversion HL; auto.
       + clear - Hf. cbn [map lines_toks app] in *. unfold base_toks in *. fuel_tac.
-      + exists ts'. split; auto. cbn [map lines_toks app] in E. rewrite E.
-        cbn [map fst snd]. rewrite <- !app_assoc. reflexivity.
+      + exists ts'. split; auto. rewrite <- !app_assoc in E. exact E.
   Qed.
 
   (* one GPOS lookup inside parse(): the generic list lemma *)
